@@ -170,7 +170,7 @@ def run_property(prop, tier, seed, jobs, write_baseline, t_start):
     if not units:
         print("no units for", prop)
         return 3
-    with mp.Pool(min(jobs, max(1, len(units)))) as pool:
+    with mp.Pool(min(jobs, max(1, len(units))), maxtasksperchild=1) as pool:
         results = pool.map(_work, units, chunksize=1)
 
     known = load_known()
@@ -188,7 +188,7 @@ def run_property(prop, tier, seed, jobs, write_baseline, t_start):
             (bounded_obs if r["unit"]["kind"] == "unroll" else all_obs).append(o)
     if crashes:
         for u, e in crashes:
-            print("CHECKER-CRASH unit=%s\n%s" % (u, e))
+            print("CHECKER-CRASH unit=%s\n%s" % (u, e[-700:]))
         return 3
 
     # ---- vacuity guards (section 3.5)
